@@ -6,6 +6,12 @@ HERE = os.path.dirname(os.path.dirname(os.path.abspath(__file__)))
 
 # property id -> (technique, level text, level note, design ref)
 CLAIMED = {
+    "C13": (
+        "proptest-driven generation of UTxO sets and configurations for create_send_all + ledger oracle on every emitted transaction, really signed",
+        "Generated-input search: UTxO sets of 1-400 entries (pure ADA, many policies, many assets per policy, long names, dust, all owner kinds incl. Byron with derivation-path attributes, shared payment keys) and configurations (fee coefficients incl. 0, coins per byte incl. 0, max value / tx size small enough to force splitting) go through create_send_all, several executions per case on fresh threads (hash-map order). With the batch re-parsed by the engine's CBOR reader: every supplied UTxO spent exactly once, only the target address paid, each transaction balanced in lovelace and every asset against the scenario's own values, fee >= a*size+b for the transaction really signed (make_vkey_witness / make_icarus_bootstrap_witness, one per distinct owning key), size <= max_tx_size, every value <= max_value_size, every output >= its minimum ADA. Count / width boundaries (23/24/25, 255/256/257 inputs, witnesses, policies, assets) are labelled and required. Exploration is the right level: the batcher predicts sizes with its own arithmetic model, whose agreement with real serialization can only be sampled at boundaries the generator aims at.",
+        "Trusts the engine's CBOR reader, cryptoxide (blake2b, Ed25519) and the scenario's own outpoint -> value map. Err results are accepted (the property is about success).",
+        "DESIGN.md \u00a75 C13",
+    ),
     "C07": (
         "proptest-driven tape generation of outputs and configurations + bounded-exhaustive width-border / address-length sweeps + builder scenarios, with the (160 + size) x coins_per_byte bound evaluated on the emitted bytes",
         "Generated-input search: outputs (every address kind and length incl. long Byron and malformed, coin widths, bundles, datum hash / inline datum, script reference) and configurations (coins per byte in width classes and aimed at the 256 / 65536 / 2^32 borders of cpb x (160 + size), max value size, max tx size) go through min_ada_for_output / MinOutputAdaCalculator, add_output, add_mint_asset_and_output, the output builder's min-coin helper and full builder scenarios (change, collateral return, minted-asset outputs); each emitted output is re-read with the engine's CBOR reader and must satisfy coin >= cpb x (160 + size), the returned minimum must not exceed the bound at the 8-byte coin, every emitted value must fit max_value_size and every built transaction max_tx_size. An exhaustive sweep (cpb 1..=700 x 12 shapes x padded bundles x 6 start coins; 110 addresses x 6 feature sets x 3 cpb) covers the fixed-point borders. Exploration is the right level: the function is a fixed point over its own encoded width, cheap to evaluate, and its failures sit on width borders the generators aim at.",
@@ -148,7 +154,7 @@ def main():
                 "engine": "vcheck",
                 "level_claimed": {"category": "exploration", "text": text, "design_ref": ref},
                 "level_note": note,
-                "technique": technique,
+                "technique": technique + "; thorough tier adds coverage-guided libFuzzer (cargo-fuzz) campaigns over the same case functions and oracle",
             }
         )
     manifest = {
@@ -166,11 +172,11 @@ def main():
                 "name": "vcheck",
                 "path": "/verif/engine",
                 "serves_properties": [c["property_id"] for c in checks],
-                "kind_free_text": "Rust crate: tape-based generators driven by proptest (TestRunner, fixed seeds, 16 shard processes), independent CBOR reader / Conway schema validator / ledger oracle, cargo-fuzz targets over the same case functions for thorough tiers",
+                "kind_free_text": "Rust crate: tape-based generators driven by proptest (TestRunner, fixed seeds, 16 shard processes), independent CBOR reader / Conway schema validator / ledger oracle, one cargo-fuzz (libFuzzer) target over the same case functions for thorough tiers (fuzz/, tools/fuzz_tier.sh)",
             }
         ],
         "checks": checks,
-        "notes": "All checks: ./check <id> quick|thorough. Exit 0 = held on everything explored (KNOWN-FINDING lines for findings listed in known_findings.json), exit 1 + VIOLATION line otherwise, exit 2 = infrastructure trouble / inconclusive. VERIF_SEED selects the PRNG stream. Replays: ./check replay <file>.",
+        "notes": "All checks: ./check <id> quick|thorough (thorough = fixed-work shard tier, then libFuzzer campaigns of VERIF_FUZZ_SECS seconds per sub-check, default 240; VERIF_NO_FUZZ=1 skips them). Exit 0 = held on everything explored (KNOWN-FINDING lines for findings listed in known_findings.json), exit 1 + VIOLATION line otherwise, exit 2 = infrastructure trouble / inconclusive. VERIF_SEED selects the PRNG stream. Replays: ./check replay <file>.",
         "not_applicable": [{"property_id": pid, "reason": PENDING_REASON} for pid in ids if pid not in CLAIMED],
     }
     with open(os.path.join(HERE, "MANIFEST.json"), "w") as f:
